@@ -135,8 +135,25 @@ def gen_case(rng, tier, i):
     Px, Py = rr * np.cos(th), rr * np.sin(th)
     Hy = float(rng.choice([0.0, 1.0, -1.0, rng.uniform(-1, 1)]))
     wl = float(spec['wavelengths'][int(rng.integers(len(spec['wavelengths'])))][0])
-    return dict(kind='launch', spec=spec, info=info, classes=classes, Hy=Hy, Px=Px.tolist(), Py=Py.tolist(), wl=wl,
-                vig=vig)
+    case = dict(kind='launch', spec=spec, info=info, classes=classes, Hy=Hy, Px=Px.tolist(), Py=Py.tolist(), wl=wl, vig=vig)
+    if rng.random() < 0.25:
+        # the lens is used once, then edited through the public setters, then launched: the pupil the rays aim at is
+        # the pupil of the lens as it is NOW
+        K = len(spec['surfaces'])
+        edits = []
+        for _ in range(int(rng.integers(1, 3))):
+            k = int(rng.integers(1, K))
+            su = spec['surfaces'][k - 1]
+            kind = str(rng.choice(['index', 'radius', 'thickness']))
+            if kind == 'index' and su.get('medium') != 'mirror':
+                edits.append(['index', k, round(float(rng.uniform(1.3, 1.95)), 6)])
+            elif kind == 'radius' and su.get('type', 'standard') == 'standard' and su.get('radius', 'inf') != 'inf':
+                edits.append(['radius', k, round(float(su['radius']) * float(rng.uniform(0.7, 1.5)), 6)])
+            elif kind == 'thickness':
+                edits.append(['thickness', k, round(float(su['t']) * float(rng.uniform(0.5, 1.5)), 6)])
+        if edits:
+            case['edits'] = edits
+    return case
 
 
 def expected_count(name, n):
@@ -245,7 +262,31 @@ def check_case(case, rec):
         rec.cls('negative-power-imageFNO-skipped')     # EPD sign is C04's finding `negative-power`; not re-litigated here
         return
     lens = L.build(spec)
-    classes = case.get('classes', [])
+    classes = list(case.get('classes', []))
+    if case.get('edits'):
+        import copy
+        classes.append('edited-after-first-use')
+        try:
+            lens.trace_generic(0.0, 0.5, 0.0, 0.5, case['wl'])
+            lens.trace(0.0, 1.0, case['wl'], 6, 'line_y')
+        except ValueError as e:
+            if 'Chebyshev input coordinates' in str(e):
+                rec.cls('chebyshev-domain-error-skipped')
+                return
+            raise
+        lens.paraxial.EPL(); lens.paraxial.EPD()
+        spec = copy.deepcopy(spec)
+        for kind_, k_, v_ in case['edits']:
+            if kind_ == 'index':
+                lens.set_index(v_, k_); spec['surfaces'][k_ - 1]['medium'] = {'n': v_}
+            elif kind_ == 'radius':
+                lens.set_radius(v_, k_); spec['surfaces'][k_ - 1]['radius'] = v_
+            else:
+                lens.set_thickness(v_, k_); spec['surfaces'][k_ - 1]['t'] = v_
+            rec.event('edits_applied')
+        if spec['aperture'][0] == 'imageFNO' and float(L.psys(spec).power()) < 0:
+            rec.cls('negative-power-imageFNO-skipped')
+            return
     finite = spec['obj_t'] != 'inf'
     tele = bool(spec.get('telecentric'))
     cell = f"{'finite' if finite else 'inf'}+{spec['field_type']}+{spec['aperture'][0]}" + ('+telecentric' if tele else '')
